@@ -235,13 +235,14 @@ fn gen_config(r: &mut Rng, p_set: usize) -> Config {
         c.ports = Some((0..n).map(|_| *r.pick(&[5432u16, 5433, 1])).collect());
     }
     if r.chance(p_set) {
-        c.connect_timeout = Some(Duration::new(r.below(100) as u64, r.below(1000) as u32));
+        // extreme values count too: zero is a value, not "unset"
+        c.connect_timeout = Some(if r.chance(20) { Duration::ZERO } else { Duration::new(r.below(100) as u64, r.below(1000) as u32) });
     }
     if r.chance(p_set) {
         c.keepalives = Some(r.chance(50));
     }
     if r.chance(p_set) {
-        c.keepalives_idle = Some(Duration::new(r.below(10000) as u64, 0));
+        c.keepalives_idle = Some(if r.chance(20) { Duration::ZERO } else { Duration::new(r.below(10000) as u64, 0) });
     }
     if r.chance(p_set) {
         c.target_session_attrs = Some(*r.pick(&[TargetSessionAttrs::Any, TargetSessionAttrs::ReadWrite]));
